@@ -136,6 +136,11 @@ def written_value(n: Node, attr: str):
         for t in a.targets:
             if isinstance(t, ast.Attribute) and t.attr == attr:
                 return a.value
+            if isinstance(t, (ast.Tuple, ast.List)) and isinstance(a.value, (ast.Tuple, ast.List)) \
+                    and len(t.elts) == len(a.value.elts):
+                for te, ve in zip(t.elts, a.value.elts):
+                    if isinstance(te, ast.Attribute) and te.attr == attr:
+                        return ve
     if isinstance(a, ast.AnnAssign) and isinstance(a.target, ast.Attribute) and a.target.attr == attr:
         return a.value
     return None
